@@ -113,13 +113,13 @@ ALL = {"out", "ret", "len", "cap", "place", "ids", "alloc", "elems"}
 FIELDS = {
     "C01": {"out", "ret", "len", "ids"},
     "C02": {"out", "ret", "len", "ids", "elems"},
-    "C03": {"out", "place", "alloc", "cap"},
+    "C03": {"place", "alloc", "cap"},
     "C04": {"out", "ret", "len", "ids", "elems"},
     "C05": {"out", "ret", "len", "ids", "elems"},
     "C06": ALL,
-    "C07": {"out", "len", "cap", "place", "alloc"},
-    "C08": {"out", "ret", "place", "alloc"},
-    "C09": {"out", "len", "cap", "place", "alloc"},
+    "C07": {"cap", "place", "alloc"},
+    "C08": {"place", "alloc"},
+    "C09": {"out", "cap", "place", "alloc"},
     "C10": {"out", "ret", "len", "ids"},
     "C11": ALL,
     "C12": {"out", "ret", "len", "ids", "elems", "alloc"},
@@ -143,6 +143,17 @@ REL_OPS = {
     "C15": {"cmp"},
 }
 IRREL_OPS = {"C02": NOT_OWNERSHIP, "C04": NOT_OWNERSHIP, "C05": NOT_OWNERSHIP, "C12": NOT_OWNERSHIP, "C17": NOT_OWNERSHIP}
+
+# operations whose OUTCOME (returns / panics) and result code belong to the capacity, alignment and allocator
+# properties; at every other operation these properties only compare capacity, placement and allocator events
+CAP_OPS = {"wcap", "walign", "reserve", "reservex", "shrinkfit", "shrinkto", "spare", "splitspare"}
+OUT_AT_CAP_OPS = {"C03", "C07", "C08"}
+
+def fields_at(pid, op):
+    f = FIELDS.get(pid, ALL)
+    if pid in OUT_AT_CAP_OPS and op in CAP_OPS:
+        f = f | {"out", "ret"}
+    return f
 
 def op_relevant(pid, op):
     if pid in REL_OPS:
@@ -188,11 +199,14 @@ def compare_one(pid, line, mlines, res):
         ip = hrun.parse_line(ilines[i])
         if ip is None:
             return n, {"at": mp["k"], "model": ml, "impl": ilines[i], "why": "unparsable implementation line"}
+        fields = fields_at(pid, mp["op"])
         a, b = project(pid, mp, fields), project(pid, ip, fields)
         n += 1
         if project(pid, mp, ALL) != project(pid, ip, ALL):
             df = diff_fields(mp, ip)
-            if a != b and op_relevant(pid, mp["op"]):
+            import implside
+            parsed = [x for x in (hrun.parse_line(y) for y in ilines[:i + 1]) if x]
+            if a != b and op_relevant(pid, mp["op"]) and implside.premise_ok(pid, line, parsed, mp["k"]):
                 return n, {"at": mp["k"], "model": a, "impl": b, "why": "projection %s differs" % sorted(fields)}
             # the traces part ways here, in fields or at an operation this property does not speak about
             return n, {"elsewhere": True, "at": mp["k"], "op": mp["op"], "fields": sorted(df)}
